@@ -116,3 +116,10 @@ package derive
 //@ func (tm *typesMap) isGenerated(typs []types.Type) (r bool)
 //@ assigns nothing
 //@ ensures r ==> exists n string :: n in F && eq(typs, F[n]) && tm.generated[n]
+
+// ---------------------------------------------------------------------------
+// fields.go
+// ---------------------------------------------------------------------------
+
+//@ func (f *Field) Private() (r bool)
+//@ abstract: pred
